@@ -12,12 +12,14 @@ import (
 	"strconv"
 	"strings"
 	"sync"
+	"sync/atomic"
 	"time"
 
 	"github.com/go-chi/chi"
 
 	"go.amzn.com/lambda/core/directinvoke"
 	"go.amzn.com/lambda/interop"
+	"go.amzn.com/lambda/verifhook"
 	"go.amzn.com/verifharness/vh"
 )
 
@@ -28,7 +30,7 @@ import (
 func init() { register("C17", genC17) }
 
 type c17Desc struct {
-	Kind string `json:"kind"` // history | copy | reset | rate
+	Kind string `json:"kind"` // history | copy | reset | rate | wakeup
 	N    int    `json:"n"`
 	Salt string `json:"salt"`
 }
@@ -48,6 +50,7 @@ func genC17(tier string, seed int64) []Case {
 	}
 	add(c17Desc{Kind: "copy", N: 0, Salt: "enumerated"})
 	add(c17Desc{Kind: "reset", N: 0, Salt: "enumerated"})
+	add(c17Desc{Kind: "wakeup", N: 0, Salt: "enumerated"})
 	nr := 6
 	if tier == "thorough" {
 		nr = 40
@@ -68,6 +71,8 @@ func runC17(c *Ctx, d c17Desc) {
 		runC17Reset(c, d)
 	case "rate":
 		runC17Rate(c, d)
+	case "wakeup":
+		runC17Wakeup(c, d)
 	}
 }
 
@@ -584,3 +589,52 @@ func runC17Rate(c *Ctx, d c17Desc) {
 }
 
 var _ = vh.Digest
+
+// runC17Wakeup delays the writer at the pause point between "not enough tokens" and
+// "wait for the next refill" for longer than a refill interval, so that the refill (which
+// may fill the bucket to its capacity) happens BEFORE the writer starts waiting. The copy
+// must still terminate: a later tick has to wake the writer even if it added no tokens.
+func runC17Wakeup(c *Ctx, d c17Desc) {
+	var hits int64
+	verifhook.Set(func(name string) {
+		if name == "throttler.beforeWait" {
+			atomic.AddInt64(&hits, 1)
+			time.Sleep(300 * time.Millisecond)
+		}
+	})
+	defer verifhook.Set(nil)
+	n := 0
+	for _, cfg := range []struct{ rate, burst int64 }{{262144, 32768}, {1 << 20, 32768}, {64 << 20, 32768}, {64 << 20, 1 << 20}, {65536, 32768}} {
+		if _, err, _ := doReceive(diReq{MaxPayload: "-1", Rate: fmt.Sprint(cfg.rate), Burst: fmt.Sprint(cfg.burst)}); err != nil {
+			c.Inconclusive("setup refused: " + err.Error())
+			return
+		}
+		size := cfg.burst*4 + 17
+		w := &recFlusher{}
+		t0 := time.Now()
+		err, finished := sendDirect(w, &chunkReader{data: make([]byte, size), chunk: 0, failAt: -1, gateAt: -1}, false, make(chan *interop.Reset))
+		n++
+		if !c.Check(finished && err == nil, "copy_terminates", "C17/rate/hang-after-delayed-wait", fmt.Sprintf("copy with rate %d burst %d did not complete after the writer was delayed before its wait for a refill: %v", cfg.rate, cfg.burst, err), nil) {
+			break
+		}
+		c.Check(int64(len(w.body())) == size, "rate_copy_complete", "C17/rate/bytes", "rate-limited copy lost bytes", len(w.body()))
+		var sum int64
+		for j, ch := range w.chunks {
+			sum += int64(len(ch))
+			el := w.times[j].Sub(t0)
+			allowed := cfg.burst + int64(float64(cfg.rate)*el.Seconds())
+			if !c.Check(sum <= allowed, "rate_bound", "C17/rate/bound-exceeded", fmt.Sprintf("after write %d: %d bytes forwarded at %.1f ms, bound %d", j, sum, float64(el)/1e6, allowed), nil) {
+				break
+			}
+		}
+	}
+	h := int(atomic.LoadInt64(&hits))
+	if h == 0 {
+		c.Inconclusive("pause point throttler.beforeWait was never reached")
+	}
+	c.SetHooks(map[string]int{"throttler.beforeWait": h})
+	c.Counter("delayed_waits", h)
+	c.Counter("wakeup_cases", n)
+	c.SetTrace("wakeup", true)
+	c.SetSample(map[string]interface{}{"cases": n, "delayed_waits": h})
+}
